@@ -26,11 +26,15 @@ Lemma length_le_bytes n v : length (le_bytes n v) = n.
 Proof. revert v. induction n as [|n IH]; intros v; cbn; auto. Qed.
 
 Lemma take_bytes_app (a r : bytes) : take_bytes (length a) (a ++ r) = Some (a, r).
+Proof. induction a as [|x a IH]; cbn [length app take_bytes]; [reflexivity|]. rewrite IH. reflexivity. Qed.
+
+(* take_bytes is the guarded split ([u8; N]::deserialize / the length-prefixed reads) *)
+Lemma take_bytes_spec n : forall buf,
+  take_bytes n buf = if Nat.leb n (length buf) then Some (firstn n buf, skipn n buf) else None.
 Proof.
-  unfold take_bytes. rewrite app_length.
-  assert (E : Nat.leb (length a) (length a + length r) = true) by (apply Nat.leb_le; lia).
-  rewrite E. rewrite firstn_app, Nat.sub_diag, firstn_all, skipn_app, Nat.sub_diag, skipn_all. cbn.
-  rewrite app_nil_r. reflexivity.
+  induction n as [|n IH]; intros buf; [reflexivity|].
+  destruct buf as [|x r]; [reflexivity|]. cbn [take_bytes length Nat.leb firstn skipn]. rewrite IH.
+  destruct (Nat.leb n (length r)); reflexivity.
 Qed.
 
 Lemma get_le_put n v r : v < 256 ^ N.of_nat n -> get_le n (le_bytes n v ++ r) = Some (v, r).
@@ -148,3 +152,364 @@ Proof.
   rewrite get_u16_put by exact Hl. rewrite Nat2N.id.
   apply (get_digest_entries_put d [] r); assumption.
 Qed.
+
+(* ---------- the block stream ---------- *)
+Section StreamRT.
+  Variable zc : bytes -> option bytes.
+  Variable zd : bytes -> option bytes.
+  Hypothesis zc_len : forall b c, zc b = Some c -> len c <= len b.
+  (* the decompressor is a left inverse of the compressor *)
+  Hypothesis zd_zc : forall b c, zc b = Some c -> zd c = Some b.
+
+  (* [enc_blocks n out data]: [out] is a sequence of n well-formed blocks carrying [data] *)
+  Inductive enc_blocks : nat -> bytes -> bytes -> Prop :=
+  | enc_nil : enc_blocks 0 [] []
+  | enc_comp n o d c blk : enc_blocks n o d -> zd c = Some blk -> len c <= u16_max ->
+      enc_blocks (S n) (o ++ put_u8 1 ++ put_u16 (len c) ++ c) (d ++ blk)
+  | enc_raw n o d blk : enc_blocks n o d -> len blk <= u16_max ->
+      enc_blocks (S n) (o ++ put_u8 2 ++ put_u16 (len blk) ++ blk) (d ++ blk).
+
+  Lemma enc_blocks_read n o d : enc_blocks n o d ->
+    forall tail acc fuel, read_blocks zd (n + fuel) (o ++ tail) acc = read_blocks zd fuel tail (acc ++ d).
+  Proof.
+    induction 1 as [|n o d c blk He IH Hz Hl|n o d blk He IH Hl]; intros tail acc fuel.
+    - cbn. rewrite app_nil_r. reflexivity.
+    - rewrite <- app_assoc. replace (S n + fuel)%nat with (n + S fuel)%nat by lia. rewrite IH.
+      cbn [read_blocks]. rewrite <- !app_assoc. rewrite get_u8_put by lia.
+      change (1 =? 0) with false. change (1 =? 1) with true. cbv iota.
+      rewrite get_u16_put by exact Hl. unfold len at 1. rewrite Nat2N.id, take_bytes_app, Hz.
+      rewrite app_assoc. reflexivity.
+    - rewrite <- app_assoc. replace (S n + fuel)%nat with (n + S fuel)%nat by lia. rewrite IH.
+      cbn [read_blocks]. rewrite <- !app_assoc. rewrite get_u8_put by lia.
+      change (2 =? 0) with false. change (2 =? 1) with false. change (2 =? 2) with true. cbv iota.
+      rewrite get_u16_put by exact Hl. unfold len at 1. rewrite Nat2N.id, take_bytes_app.
+      rewrite app_assoc. reflexivity.
+  Qed.
+
+  Lemma enc_blocks_count n o d : enc_blocks n o d -> (n <= length o)%nat.
+  Proof.
+    induction 1; [cbn; lia| |]; rewrite !app_length; cbn [put_u8 le_bytes length]; lia.
+  Qed.
+
+  (* writer invariant: the emitted blocks decode to [d], and d ++ pending = everything appended *)
+  Definition winv (w : writer) (all : bytes) : Prop :=
+    0 < w_thr w /\ w_thr w <= u16_max /\
+    exists n d, enc_blocks n (w_out w) d /\ d ++ w_pend w = all.
+
+  Lemma flush_block_winv w all : winv w all -> winv (flush_block zc w) all.
+  Proof.
+    intros (Ht & Hu & n & d & He & Hall). unfold flush_block.
+    destruct (w_pend w) as [|b0 p0] eqn:Ep; [split; [|split]; try assumption; exists n, d; rewrite Ep; auto|].
+    rewrite <- Ep in *. clear Ep b0 p0.
+    set (k := N.to_nat (N.min (len (w_pend w)) (w_thr w))).
+    assert (Hblk : len (firstn k (w_pend w)) <= w_thr w).
+    { rewrite len_firstn. unfold k. rewrite N2Nat.id. lia. }
+    assert (Hsplit : (d ++ firstn k (w_pend w)) ++ skipn k (w_pend w) = all).
+    { rewrite <- app_assoc, firstn_skipn. exact Hall. }
+    destruct (zc (firstn k (w_pend w))) as [c|] eqn:Ez; (split; [exact Ht|split; [exact Hu|]]); cbn [w_out w_pend w_thr].
+    - exists (S n), (d ++ firstn k (w_pend w)). split; [|exact Hsplit].
+      apply enc_comp; [exact He|apply zd_zc; exact Ez|]. apply zc_len in Ez. lia.
+    - exists (S n), (d ++ firstn k (w_pend w)). split; [|exact Hsplit].
+      apply enc_raw; [exact He|lia].
+  Qed.
+
+  Lemma flush_block_thr w : w_thr (flush_block zc w) = w_thr w.
+  Proof. unfold flush_block. destruct (w_pend w); [reflexivity|]. destruct (zc _); reflexivity. Qed.
+
+  Lemma flush_while_winv fuel : forall w all, winv w all -> winv (flush_while zc fuel w) all.
+  Proof.
+    induction fuel as [|f IH]; intros w all H; cbn [flush_while]; [exact H|].
+    destruct (w_thr w <? len (w_pend w)); [|exact H]. apply IH. apply flush_block_winv. exact H.
+  Qed.
+
+  Lemma append_winv w all item w' : winv w all -> append zc w item = Ok w' -> winv w' (all ++ item).
+  Proof.
+    intros (Ht & Hu & n & d & He & Hall). unfold append. destruct (u16_max <? len item); [discriminate|].
+    intros [= <-]. apply flush_while_winv. split; [exact Ht|split; [exact Hu|]]. cbn [w_out w_pend w_thr].
+    exists n, d. split; [exact He|]. rewrite app_assoc, Hall. reflexivity.
+  Qed.
+
+  Lemma new_writer_winv thr : 0 < thr -> thr <= u16_max -> winv (new_writer thr) [].
+  Proof. intros H1 H2. split; [exact H1|split; [exact H2|]]. exists 0%nat, []. split; [constructor|reflexivity]. Qed.
+
+  (* reading back what finish wrote gives everything appended, and leaves the rest *)
+  Lemma read_stream_finish w all rest :
+    winv w all -> len (w_pend w) <= w_thr w ->
+    read_stream zd (finish zc w ++ rest) = Some (all, rest).
+  Proof.
+    intros Hw Hp. pose proof (flush_block_winv w all Hw) as (Ht & Hu & n & d & He & Hall).
+    assert (Hpend : w_pend (flush_block zc w) = []).
+    { unfold flush_block. destruct (w_pend w) as [|b0 p0] eqn:Ep; [exact Ep|]. rewrite <- Ep in *.
+      assert (Hk : N.to_nat (N.min (len (w_pend w)) (w_thr w)) = length (w_pend w)).
+      { unfold len in *. lia. }
+      rewrite Hk. destruct (zc _); cbn [w_pend]; apply skipn_all. }
+    rewrite Hpend, app_nil_r in Hall. subst d.
+    unfold read_stream, finish. rewrite <- app_assoc.
+    pose proof (enc_blocks_count _ _ _ He) as Hn.
+    set (o := w_out (flush_block zc w)) in *.
+    replace (S (length (o ++ put_u8 0 ++ rest))) with (n + S (length (o ++ put_u8 0 ++ rest) - n))%nat
+      by (rewrite app_length; lia).
+    rewrite (enc_blocks_read _ _ _ He). cbn [read_blocks]. rewrite get_u8_put by lia.
+    change (0 =? 0) with true. cbv iota. reflexivity.
+  Qed.
+End StreamRT.
+
+(* ---------- ops ---------- *)
+Lemma op_tags_ok :
+  P_OP_NODE < 256 /\ P_OP_KV < 256 /\ P_OP_SETMAX < 256 /\
+  (P_OP_KV =? P_OP_NODE) = false /\ (P_OP_SETMAX =? P_OP_NODE) = false /\ (P_OP_SETMAX =? P_OP_KV) = false.
+Proof. vm_compute. repeat split. Qed.
+
+Lemma mstatus_code_rt s : mstatus_code s < 256 /\ mstatus_of_code (mstatus_code s) = Some s.
+Proof. destruct s; vm_compute; split; reflexivity. Qed.
+
+Definition kvm_ok (m : kvm) : Prop := str_ok (m_key m) /\ str_ok (m_val m) /\ u64_ok (m_ver m).
+Definition op_ok (o : op) : Prop :=
+  match o with
+  | OpNode i gc from => id_ok i /\ u64_ok gc /\ u64_ok from
+  | OpKV m => kvm_ok m
+  | OpSetMax mx => u64_ok mx
+  end.
+
+Lemma get_op_put o r : op_ok o -> get_op (put_op o ++ r) = Some (o, r).
+Proof.
+  destruct op_tags_ok as (T1 & T2 & T3 & T4 & T5 & T6).
+  destruct o as [i gc from|m|mx]; cbn [op_ok]; unfold get_op, put_op.
+  - intros (Hi & Hg & Hf). rewrite <- !app_assoc. rewrite get_u8_put by exact T1. rewrite N.eqb_refl.
+    rewrite get_id_put by exact Hi. rewrite !get_u64_put by assumption. reflexivity.
+  - intros (Hk & Hv & Hver). unfold put_kvm. rewrite <- !app_assoc. rewrite get_u8_put by exact T2.
+    rewrite T4, N.eqb_refl. rewrite !get_str_put by assumption. rewrite get_u64_put by exact Hver.
+    destruct (mstatus_code_rt (m_st m)) as [Hc Hs]. rewrite get_u8_put by exact Hc. rewrite Hs.
+    destruct m; reflexivity.
+  - intros Hm. rewrite <- !app_assoc. rewrite get_u8_put by exact T3. rewrite T5, T6, N.eqb_refl.
+    rewrite get_u64_put by exact Hm. reflexivity.
+Qed.
+
+Lemma put_op_nonempty o : exists b r, put_op o = b :: r.
+Proof. destruct o; cbn [put_op put_u8 le_bytes app]; eauto. Qed.
+
+Lemma length_put_op_pos o : (1 <= length (put_op o))%nat.
+Proof. destruct (put_op_nonempty o) as (b & r & ->). cbn. lia. Qed.
+
+Lemma get_ops_step f buf : buf <> [] ->
+  get_ops (S f) buf = match get_op buf with
+                      | None => None
+                      | Some (o, r) => match get_ops f r with None => None | Some l => Some (o :: l) end
+                      end.
+Proof. destruct buf; [contradiction|reflexivity]. Qed.
+
+Lemma get_ops_put ops : forall fuel, (length ops <= fuel)%nat -> Forall op_ok ops ->
+  get_ops fuel (flat_map put_op ops) = Some ops.
+Proof.
+  induction ops as [|o ops IH]; intros fuel Hf Hok.
+  - destruct fuel; reflexivity.
+  - inversion Hok as [|? ? Ho Hok']; subst. cbn [flat_map].
+    destruct fuel as [|f]; [cbn in Hf; lia|].
+    rewrite get_ops_step.
+    + rewrite get_op_put by exact Ho. rewrite IH; [reflexivity|cbn in Hf; lia|exact Hok'].
+    + destruct (put_op_nonempty o) as (b & r & E). rewrite E. discriminate.
+Qed.
+
+Lemma length_flat_map_put_op ops : (length ops <= length (flat_map put_op ops))%nat.
+Proof.
+  induction ops as [|o ops IH]; cbn [flat_map length]; [lia|].
+  rewrite app_length. pose proof (length_put_op_pos o). lia.
+Qed.
+
+(* ---------- the builder on normal-form deltas ---------- *)
+(* what Delta::get_operations can represent: versions strictly ascending from 0, and when there are
+   key-values the max version is the last one's (a SetMaxVersion is only emitted for an empty tail) *)
+Definition nd_normal (nd : ndelta) : Prop :=
+  asc_from 0 (d_kvs nd) /\ (d_kvs nd <> [] -> d_max nd = last_kv_ver 0 (d_kvs nd)).
+Definition delta_normal (x : delta) : Prop :=
+  NoDup (map d_id (nds x)) /\ Forall nd_normal (nds x).
+
+Lemma b_apply_ops_app o1 : forall b o2,
+  b_apply_ops b (o1 ++ o2) = match b_apply_ops b o1 with Some b' => b_apply_ops b' o2 | None => None end.
+Proof.
+  induction o1 as [|o r IH]; intros b o2; cbn [app b_apply_ops]; [reflexivity|].
+  destruct (b_apply_op b o); [apply IH|reflexivity].
+Qed.
+
+Lemma b_apply_kvs i from gc seen done kvs : forall pre,
+  asc_from (last_kv_ver 0 pre) kvs ->
+  b_apply_ops (mkB seen done (Some (mkND i from gc pre (last_kv_ver 0 pre)))) (map OpKV kvs)
+  = Some (mkB seen done (Some (mkND i from gc (pre ++ kvs) (last_kv_ver 0 (pre ++ kvs))))).
+Proof.
+  induction kvs as [|m kvs IH]; intros pre Ha; cbn [map b_apply_ops].
+  - rewrite app_nil_r. reflexivity.
+  - destruct Ha as [Hlt Ha]. cbn [b_apply_op b_cur d_max d_id d_from d_gc d_kvs b_seen b_done].
+    apply N.ltb_lt in Hlt. rewrite Hlt.
+    replace (m_ver m) with (last_kv_ver 0 (pre ++ [m])) at 1 by apply last_kv_ver_app.
+    rewrite IH by (rewrite last_kv_ver_app; exact Ha).
+    rewrite <- app_assoc. reflexivity.
+Qed.
+
+Lemma b_apply_nd nd b :
+  nd_normal nd -> existsb (id_eqb (d_id nd)) (b_seen (b_flush b)) = false ->
+  b_apply_ops b (nd_ops nd) = Some (mkB (d_id nd :: b_seen (b_flush b)) (b_done (b_flush b)) (Some nd)).
+Proof.
+  intros [Ha Hm] Hseen. unfold nd_ops. cbn [b_apply_ops b_apply_op]. rewrite Hseen.
+  rewrite b_apply_ops_app.
+  rewrite (b_apply_kvs (d_id nd) (d_from nd) (d_gc nd) _ _ (d_kvs nd) []) by exact Ha.
+  cbn [app]. destruct nd as [i from gc kvs mx]. cbn [d_id d_from d_gc d_kvs d_max] in *.
+  destruct kvs as [|m kvs].
+  - cbn [last_kv_ver]. destruct (0 <? mx) eqn:E; cbn [b_apply_ops b_apply_op b_cur d_max d_id d_from d_gc d_kvs b_seen b_done].
+    + assert (E2 : mx <? 0 = false) by (apply N.ltb_ge; lia). rewrite E2. reflexivity.
+    + apply N.ltb_ge in E. assert (mx = 0) by lia. subst mx. reflexivity.
+  - rewrite Hm by discriminate. reflexivity.
+Qed.
+
+Lemma b_apply_nds l : forall b,
+  Forall nd_normal l -> NoDup (map d_id l) ->
+  (forall nd, In nd l -> existsb (id_eqb (d_id nd)) (b_seen b) = false) ->
+  exists b', b_apply_ops b (flat_map nd_ops l) = Some b' /\ b_done (b_flush b') = b_done (b_flush b) ++ l.
+Proof.
+  induction l as [|nd l IH]; intros b Hn Hd Hs; cbn [flat_map].
+  - exists b. split; [reflexivity|]. rewrite app_nil_r. reflexivity.
+  - inversion Hn as [|? ? Hnd Hn']; subst. inversion Hd as [|? ? Hnotin Hd']; subst.
+    assert (Hfl : b_seen (b_flush b) = b_seen b) by (unfold b_flush; destruct (b_cur b); reflexivity).
+    rewrite b_apply_ops_app, (b_apply_nd nd b Hnd) by (rewrite Hfl; apply Hs; left; reflexivity).
+    destruct (IH (mkB (d_id nd :: b_seen (b_flush b)) (b_done (b_flush b)) (Some nd)) Hn' Hd') as (b' & Hb' & Hdone).
+    + intros nd' Hin. cbn [b_seen existsb]. rewrite Hfl, (Hs nd') by (right; exact Hin).
+      destruct (id_eqb (d_id nd') (d_id nd)) eqn:E; [|reflexivity].
+      apply id_eqb_eq in E. exfalso. apply Hnotin. rewrite <- E. apply in_map. exact Hin.
+    + exists b'. split; [exact Hb'|]. rewrite Hdone. cbn [b_flush b_cur b_done b_seen]. rewrite <- app_assoc. reflexivity.
+Qed.
+
+Lemma b_apply_delta_ops x l0 : delta_normal x ->
+  exists b, b_apply_ops new_builder (delta_ops x) = Some b /\ b_finish b l0 = mkDelta (nds x) l0.
+Proof.
+  intros [Hd Hn]. destruct (b_apply_nds (nds x) new_builder Hn Hd) as (b & Hb & Hdone); [reflexivity|].
+  exists b. split; [exact Hb|]. unfold b_finish. rewrite Hdone. reflexivity.
+Qed.
+
+(* ---------- deltas ---------- *)
+Definition nd_ok (nd : ndelta) : Prop :=
+  id_ok (d_id nd) /\ u64_ok (d_gc nd) /\ u64_ok (d_from nd) /\ u64_ok (d_max nd) /\ Forall kvm_ok (d_kvs nd).
+Definition delta_ok (x : delta) : Prop := delta_normal x /\ Forall nd_ok (nds x).
+
+Lemma nd_ops_ok nd : nd_ok nd -> Forall op_ok (nd_ops nd).
+Proof.
+  intros (Hi & Hg & Hf & Hm & Hk). unfold nd_ops. constructor; [cbn; auto|].
+  apply Forall_app. split.
+  - apply Forall_forall. intros o Ho. apply in_map_iff in Ho as (m & <- & Hin). cbn.
+    rewrite Forall_forall in Hk. apply Hk. exact Hin.
+  - destruct (d_kvs nd); [|constructor]. destruct (0 <? d_max nd); constructor; [exact Hm|constructor].
+Qed.
+
+Lemma delta_ops_ok x : Forall nd_ok (nds x) -> Forall op_ok (delta_ops x).
+Proof.
+  unfold delta_ops. induction 1 as [|nd l Hnd _ IH]; cbn [flat_map]; [constructor|].
+  apply Forall_app. split; [apply nd_ops_ok; exact Hnd|exact IH].
+Qed.
+
+Lemma ser_threshold_ok : 0 < P_BLOCK_THRESHOLD_SER /\ P_BLOCK_THRESHOLD_SER <= u16_max.
+Proof. vm_compute. split; [reflexivity|discriminate]. Qed.
+
+Section DeltaRT.
+  Variable zc : bytes -> option bytes.
+  Variable zd : bytes -> option bytes.
+  Hypothesis zc_len : forall b c, zc b = Some c -> len c <= len b.
+  Hypothesis zd_zc : forall b c, zc b = Some c -> zd c = Some b.
+
+  Lemma append_ops_winv ops : forall w all w',
+    winv zd w all -> len (w_pend w) <= w_thr w -> append_ops zc w ops = Ok w' ->
+    winv zd w' (all ++ flat_map put_op ops) /\ len (w_pend w') <= w_thr w'.
+  Proof.
+    induction ops as [|o ops IH]; intros w all w' Hw Hp; cbn [append_ops flat_map].
+    - intros [= <-]. rewrite app_nil_r. auto.
+    - destruct (append zc w (put_op o)) as [w1| |] eqn:E; cbn [rbind]; try discriminate.
+      intros H. rewrite app_assoc.
+      destruct (append_spec zc zc_len w (put_op o) w1 (proj1 Hw) E) as (_ & H2 & H3).
+      apply (IH w1); [eapply append_winv; eauto|rewrite H3; exact H2|exact H].
+  Qed.
+
+  Theorem get_delta_put x p rest :
+    delta_ok x -> put_delta zc x = Ok p -> get_delta zd (p ++ rest) = Some (x, rest).
+  Proof.
+    intros [Hnorm Hok]. unfold put_delta.
+    destruct (append_ops zc (new_writer P_BLOCK_THRESHOLD_SER) (delta_ops x)) as [w| |] eqn:E; cbn [rbind]; try discriminate.
+    destruct (len (finish zc w) =? dlen x) eqn:El; [|discriminate]. intros [= <-].
+    apply N.eqb_eq in El. destruct ser_threshold_ok as [T1 T2].
+    destruct (append_ops_winv (delta_ops x) _ [] w (new_writer_winv zd _ T1 T2) ltac:(cbn; lia) E) as [Hw Hp].
+    cbn [app] in Hw. unfold get_delta.
+    rewrite (read_stream_finish zc zd zc_len zd_zc w _ rest Hw Hp).
+    rewrite get_ops_put; [|apply length_flat_map_put_op|apply delta_ops_ok; exact Hok].
+    destruct (b_apply_delta_ops x (len (finish zc w ++ rest) - len rest) Hnorm) as (b & Hb & Hfin).
+    rewrite Hb, Hfin. rewrite len_app. replace (len (finish zc w) + len rest - len rest) with (dlen x) by lia.
+    destruct x; reflexivity.
+  Qed.
+End DeltaRT.
+
+(* ---------- messages ---------- *)
+Lemma header_consts_ok :
+  P_MAGIC <= u16_max /\ P_PROTOCOL_VERSION < 256 /\
+  P_TAG_SYN < 256 /\ P_TAG_SYNACK < 256 /\ P_TAG_ACK < 256 /\ P_TAG_BADCLUSTER < 256 /\
+  (P_TAG_SYNACK =? P_TAG_SYN) = false /\ (P_TAG_ACK =? P_TAG_SYN) = false /\ (P_TAG_ACK =? P_TAG_SYNACK) = false /\
+  (P_TAG_BADCLUSTER =? P_TAG_SYN) = false /\ (P_TAG_BADCLUSTER =? P_TAG_SYNACK) = false /\
+  (P_TAG_BADCLUSTER =? P_TAG_ACK) = false.
+Proof. vm_compute. repeat split; discriminate. Qed.
+
+Definition msg_ok (m : message) : Prop :=
+  match m with
+  | Syn c d => str_ok c /\ digest_ok d
+  | SynAck d x => digest_ok d /\ delta_ok x
+  | Ack x => delta_ok x
+  | BadCluster => True
+  end.
+
+Section MsgRT.
+  Variable zc : bytes -> option bytes.
+  Variable zd : bytes -> option bytes.
+  Hypothesis zc_len : forall b c, zc b = Some c -> len c <= len b.
+  Hypothesis zd_zc : forall b c, zc b = Some c -> zd c = Some b.
+
+  Lemma decode_header tag body :
+    tag < 256 ->
+    decode zd (put_header tag ++ body) =
+      if tag =? P_TAG_SYN then
+        match get_digest body with
+        | None => None
+        | Some (d, r3) => match get_str r3 with None => None | Some (c, r4) => Some (Syn c d, r4) end
+        end
+      else if tag =? P_TAG_SYNACK then
+        match get_digest body with
+        | None => None
+        | Some (d, r3) => match get_delta zd r3 with None => None | Some (x, r4) => Some (SynAck d x, r4) end
+        end
+      else if tag =? P_TAG_ACK then
+        match get_delta zd body with None => None | Some (x, r3) => Some (Ack x, r3) end
+      else if tag =? P_TAG_BADCLUSTER then Some (BadCluster, body)
+      else None.
+  Proof.
+    intros Ht. destruct header_consts_ok as (M & V & _).
+    unfold decode, put_header. rewrite <- !app_assoc.
+    rewrite get_u16_put by exact M. rewrite N.eqb_refl. cbn [negb].
+    rewrite get_u8_put by exact V. rewrite N.eqb_refl. cbn [negb].
+    rewrite get_u8_put by exact Ht. reflexivity.
+  Qed.
+
+  Opaque put_header put_digest put_str.
+  Theorem decode_encode_rest m b rest :
+    msg_ok m -> encode zc m = Ok b -> decode zd (b ++ rest) = Some (m, rest).
+  Proof.
+    destruct header_consts_ok as (_ & _ & T1 & T2 & T3 & T4 & E1 & E2 & E3 & E4 & E5 & E6).
+    destruct m as [c d|d x|x|]; cbn [msg_ok encode].
+    - intros [Hc Hd] [= <-]. rewrite <- !app_assoc. rewrite decode_header by exact T1. rewrite N.eqb_refl.
+      rewrite get_digest_put by exact Hd. rewrite get_str_put by exact Hc. reflexivity.
+    - intros [Hd Hx]. destruct (put_delta zc x) as [p| |] eqn:E; cbn [rmap]; try discriminate.
+      intros [= <-]. rewrite <- !app_assoc. rewrite decode_header by exact T2. rewrite E1, N.eqb_refl.
+      rewrite get_digest_put by exact Hd.
+      rewrite (get_delta_put zc zd zc_len zd_zc x p rest Hx E). reflexivity.
+    - intros Hx. destruct (put_delta zc x) as [p| |] eqn:E; cbn [rmap]; try discriminate.
+      intros [= <-]. rewrite <- !app_assoc. rewrite decode_header by exact T3. rewrite E2, E3, N.eqb_refl.
+      rewrite (get_delta_put zc zd zc_len zd_zc x p rest Hx E). reflexivity.
+    - intros _ [= <-]. rewrite decode_header by exact T4. rewrite E4, E5, E6, N.eqb_refl. reflexivity.
+  Qed.
+
+  Transparent put_header put_digest put_str.
+
+  Theorem decode_encode m b : msg_ok m -> encode zc m = Ok b -> decode zd b = Some (m, []).
+  Proof. intros Hm He. rewrite <- (app_nil_r b). apply decode_encode_rest; assumption. Qed.
+End MsgRT.
